@@ -46,6 +46,23 @@ def build_ring(nodes, hash_type, replicas=REPLICAS):
   return ring
 
 
+def add_node(ring, node, hash_type, replicas=REPLICAS):
+  """the published add_node on an existing ring (in place)"""
+  for i in range(replicas):
+    p = position(replica_key(node, i, hash_type), hash_type)
+    taken = set(e[0] for e in ring)
+    while p in taken:
+      p += 1
+    bisect.insort(ring, (p, node))
+  return ring
+
+
+def remove_node(ring, node):
+  """the published remove_node: every entry of the node goes, wherever it was bumped to"""
+  ring[:] = [e for e in ring if e[1] != node]
+  return ring
+
+
 def lookup_all(ring, key, hash_type, n_nodes):
   """preference order of nodes for key: nodes in order of first occurrence walking the ring from
   the first entry whose position is >= position(key), wrapping around"""
